@@ -4,7 +4,7 @@
 # run the given checks (default: ./check PROP quick), and undo it straight afterwards.
 P=$1; K=$2; shift 2
 CHECKS=${@:-$P}
-WT=/tmp/wt-$P; OUT=/tmp/seeded-out/out-$P/$K
+WT=/tmp/wt-$P; OUT=/tmp/seeded-out/out-$P${OUTSUF:-}/$K
 export CARGO_NET_OFFLINE=true; unset RUST_BACKTRACE
 set -u
 cd $WT || exit 2
